@@ -1290,8 +1290,10 @@ func (l *Listener) packetInput(data []byte, addr net.Addr) {
 			s.kcpInput(data)
 			return
 		}
-		// conversation id mismatched, only accept reset packet with sn == 0
-		if sn != 0 {
+		// conversation id mismatched, only accept reset packet with sn == 0.
+		// An OOB packet carries no sequence number (sn is still zero here) and
+		// never starts a conversation.
+		if sn != 0 || fecFlag == typeOOB {
 			return
 		}
 		// Close will remove the session from listener's session map,
